@@ -3,9 +3,10 @@ Import ListNotations.
 From PS Require Import Model.Verdict Run.Verdict.
 
 Record case := {
-  k_setup : setup; k_from : peer; k_during : list peer; k_after : list peer;
+  k_setup : setup; k_qfull : bool (* the validation queue was full when the copies of the message arrived *);
+  k_from : peer; k_during : list peer; k_after : list peer;
   o_delivered : bool;
-  o_reason : nat;                 (* RejectMessage reason traced for this message: 0 none, 1 validation failed, 2 ignored, 3 throttled *)
+  o_reason : nat;                 (* RejectMessage reason traced for this message: 0 none, 1 validation failed, 2 ignored, 3 throttled, 4 queue full *)
   o_pub_err : bool;               (* local only: Publish returned an error *)
   o_invoked : list bool;          (* per validator of s_vals: it was called for this message *)
   o_penalties : list (peer * nat) (* invalid-message-delivery counters of the fake peers afterwards *)
@@ -39,15 +40,17 @@ Definition async_rej_unthrottled (s : setup) : bool := async_rej_from s (asy s) 
    2 somebody penalised although no validator rejects;
    3 an invoked validator rejected but a forwarder (first sender or duplicate during validation) is not penalised;
    4 a local publication that fails validation did not return an error, or was delivered;
-   5 an asynchronous validator that should have been consulted rejects, yet a forwarder is not penalised *)
+   5 an asynchronous validator that should have been consulted rejects, yet a forwarder is not penalised;
+   6 delivered although an applicable validator was never consulted (so it cannot have returned Accept) *)
 Definition monitor (c : case) : nat :=
   let s := k_setup c in
   if o_delivered c && negb (all_acc s) then 1
+  else if o_delivered c && negb (forallb (fun b => b) (o_invoked c) && Nat.eqb (length (o_invoked c)) (length (s_vals s))) then 6
   else if negb (any_rej s) && existsb (fun pn => Nat.ltb 0 (snd pn)) (o_penalties c) then 2
   else if negb (s_local s) && any_rej_invoked c
           && negb (forallb (fun p => Nat.ltb 0 (plook p (o_penalties c))) (k_from c :: k_during c)) then 3
   else if s_local s && negb (all_acc s) && (negb (o_pub_err c) || o_delivered c) then 4
-  else if negb (s_local s) && negb (inline_rej_cfg s) && negb (s_global_thr s) && async_rej_unthrottled s 
+  else if negb (s_local s) && negb (k_qfull c) && negb (inline_rej_cfg s) && negb (s_global_thr s) && async_rej_unthrottled s 
           && negb (forallb (fun p => Nat.ltb 0 (plook p (o_penalties c))) (k_from c :: k_during c)) then 5
   else 0.
 
@@ -71,14 +74,15 @@ Definition check_case (c : case) : verdict :=
   let m := monitor c in
   if negb (Nat.eqb m 0) then VMonFail 0 m else
   let s := k_setup c in
-  let f := fate_of_setup s in
+  let f := fate_q s (k_qfull c) in
+  let dropped := k_qfull c && queued s in
   let exp_del := match f with Deliver => true | _ => false end in
-  let exp_reason := match f with Deliver => 0 | RejectPenalise => 1 | IgnoreNoPenalty => 2 | ThrottledNoPenalty => 3 end in
+  let exp_reason := if dropped then 4 else match f with Deliver => 0 | RejectPenalise => 1 | IgnoreNoPenalty => 2 | ThrottledNoPenalty => 3 end in
   let async_ok := negb (any_inline_rej_b s) && negb (s_global_thr s) in
   let pens := snd (drun dinit (map SDup (k_during c) ++ [SFate (k_from c) f] ++ map SDup (k_after c))) in
   if negb (Bool.eqb (o_delivered c) exp_del) then VMismatch 0 1
   else if negb (s_local s) && negb (Nat.eqb (o_reason c) exp_reason) then VMismatch 0 2   (* raw tracers are not told about local rejections *)
   else if s_local s && negb (Bool.eqb (o_pub_err c) (negb exp_del)) then VMismatch 0 3
-  else if negb (bools_eqb (o_invoked c) (expect_invoked s (s_vals s) (executed_inline s) async_ok 0)) then VMismatch 0 4
+  else if negb (bools_eqb (o_invoked c) (if dropped then map (fun _ => false) (s_vals s) else expect_invoked s (s_vals s) (executed_inline s) async_ok 0)) then VMismatch 0 4
   else if negb (s_local s) && negb (forallb (fun pn => Nat.eqb (snd pn) (cnt (fst pn) pens)) (o_penalties c)) then VMismatch 0 5
   else VOk.
